@@ -79,6 +79,10 @@ def check(chk):
                 return 'true division %s' % src(x)[:50]
             if isinstance(x, ast.Call) and isinstance(x.func, ast.Name) and x.func.id == 'float':
                 return 'float()'
+            if isinstance(x, ast.Call) and isinstance(x.func, ast.Attribute) and x.func.attr == 'total_seconds':
+                return 'timedelta.total_seconds() is a float'
+            if isinstance(x, ast.Call) and src(x.func) == 'time.time':
+                return 'time.time() is a float'
             if isinstance(x, ast.Call) and isinstance(x.func, ast.Name) and depth < 3:
                 try:
                     callee = m.func(x.func.id)
@@ -178,11 +182,15 @@ def check(chk):
     # a datetime is an instant: its UTC fields, not its wall-clock fields, go into timegm
     tg = [n for n in body_walk(uft) if isinstance(n, ast.Call) and src(n.func) == 'calendar.timegm']
     if len(tg) != 1 or not tg[0].args:
-        raise AnalysisError('uuid_from_time: calendar.timegm call not found')
-    a0 = tg[0].args[0]
-    chk.judge(isinstance(a0, ast.Call) and isinstance(a0.func, ast.Attribute) and a0.func.attr == 'utctimetuple', 'C34.uuid', tg[0],
-              'uuid_from_time: seconds = timegm(<datetime>.utctimetuple())',
-              'timegm is fed %s: for a timezone-aware datetime the UUID encodes the wall-clock reading, not the instant, and min/max_uuid_from_time no longer bracket it' % src(a0))
+        # another way of getting the epoch seconds: accepted only if it is exact (the C34.exact rule above has then looked at it); say so explicitly here
+        chk.judge(False, 'C34.uuid', uft, 'uuid_from_time: seconds = timegm(<datetime>.utctimetuple())',
+                  'the epoch seconds of a datetime are no longer taken from calendar.timegm(utctimetuple()) - a whole number that floors correctly before 1970 and converts an aware datetime to UTC')
+        tg = []
+    a0 = tg[0].args[0] if tg else None
+    if tg:
+        chk.judge(isinstance(a0, ast.Call) and isinstance(a0.func, ast.Attribute) and a0.func.attr == 'utctimetuple', 'C34.uuid', tg[0],
+                  'uuid_from_time: seconds = timegm(<datetime>.utctimetuple())',
+                  'timegm is fed %s: for a timezone-aware datetime the UUID encodes the wall-clock reading, not the instant, and min/max_uuid_from_time no longer bracket it' % src(a0))
 
     # Date
     ds = m.func('Date.__str__')
